@@ -150,6 +150,9 @@ def _exec_history(case):
         r = cut(quantize, model, weights=wq, activations=aq, **opt_kw)
     if isinstance(r, Raised):
         return out.fail(f"quantize-raises:{r.type}", r.text)
+    paramless_ln = not case["model"].get("ln_affine", True)
+    if paramless_ln:
+        model.to(dtype)  # a LayerNorm without parameters has no dtype quantize() could read: the user casts its scale buffers afterwards
     if case["seed"] % 2:
         model.eval()
         out.klass.append("eval-mode")
@@ -262,6 +265,8 @@ def _exec_history(case):
                 m2, _ = M.build_runnable(case["model"], g2)
                 m2 = m2.to(dtype)
                 quantize(m2, weights=wq, activations=aq, **opt_kw)
+                if paramless_ln:
+                    m2.to(dtype)
                 r = cut(m2.load_state_dict, sd)
                 if isinstance(r, Raised):
                     return out.fail(f"reload-raises:{r.type}/{wk}/{'frozen' if frozen else 'unfrozen'}", r.text)
